@@ -368,12 +368,14 @@ struct Spec {
 	on_trunk: bool,
 	pair: bool,
 	fork: bool,
+	/// (Kind::Single) the node is closed and reopened before every decision block and before the pool decisions
+	restart: bool,
 }
 
 impl Spec {
 	fn describe(&self) -> String {
 		format!(
-			"{:?}/{:?}/s={}/fat={:?}/trig={}/pre={}/decoy={}/trunk={}/pair={}/fork={}/seed={}",
+			"{:?}/{:?}/s={}/fat={:?}/trig={}/pre={}/decoy={}/trunk={}/pair={}/fork={}/restart={}/seed={}",
 			self.kind,
 			self.rule,
 			self.s,
@@ -384,6 +386,7 @@ impl Spec {
 			self.on_trunk,
 			self.pair,
 			self.fork,
+			self.restart,
 			self.seed
 		)
 	}
@@ -439,6 +442,7 @@ fn gen_specs(seed: u64, n_extra: usize, san: bool) -> (Vec<Spec>, usize) {
 			on_trunk: p.bool(),
 			pair: p.chance(1, 3),
 			fork: p.bool(),
+			restart: false,
 		}
 	};
 	// core set: every (rule x class) at least once, every trigger offset, both rewound variants
@@ -505,6 +509,14 @@ fn gen_specs(seed: u64, n_extra: usize, san: bool) -> (Vec<Spec>, usize) {
 		sp.s = 0;
 		v.push(sp);
 	}
+	// the same single-chain decisions on a node that is closed and reopened right before each decision (the
+	// indexes a node rebuilds at start-up — recent NRD kernels, output positions — must lead to the same decisions)
+	for rule in [RuleP::Mat { b_only: false }, RuleP::Lock, RuleP::Nrd { rel: 1 }, RuleP::Nrd { rel: 2 }, RuleP::Nrd { rel: 3 }, RuleP::Nrd { rel: 5 }, RuleP::Nrd { rel: 2 }, RuleP::Nrd { rel: 3 }] {
+		let mut sp = mk(Kind::Single, rule, &mut p);
+		sp.restart = true;
+		sp.pair = false;
+		v.push(sp);
+	}
 	if san {
 		// small subset under a sanitizer / valgrind: maturity single chain, lock re-applied
 		// fork, NRD rewound (A -> B -> A'), NRD cross fork
@@ -541,6 +553,10 @@ fn gen_specs(seed: u64, n_extra: usize, san: bool) -> (Vec<Spec>, usize) {
 		if kind == Kind::PoolHeaderFork && sp.fat == Fat::None {
 			sp.fat = Fat::B;
 		}
+		if kind == Kind::Single && p.chance(1, 2) {
+			sp.restart = true;
+			sp.pair = false;
+		}
 		v.push(sp);
 	}
 	(v, core)
@@ -569,6 +585,20 @@ struct Branch {
 	fat: u32,
 }
 
+/// The node under test; `Sim::restart` closes and reopens it.
+struct ChainCell(Option<Arc<Chain>>);
+impl std::ops::Deref for ChainCell {
+	type Target = Chain;
+	fn deref(&self) -> &Chain {
+		self.0.as_ref().expect("node is open")
+	}
+}
+impl ChainCell {
+	fn arc(&self) -> Arc<Chain> {
+		self.0.as_ref().expect("node is open").clone()
+	}
+}
+
 struct Sim<'a> {
 	run: &'a Run,
 	tag: String,
@@ -577,7 +607,10 @@ struct Sim<'a> {
 	nrd_key: Prng,
 	nrd_excess: Option<Commitment>,
 	ledger: RefLedger,
-	chain: Arc<Chain>,
+	chain: ChainCell,
+	dir: String,
+	gen: grin_core::core::Block,
+	restart_before_decisions: bool,
 	key: u32,
 	cb: HashMap<Hash, Coin>,
 	reserved: HashSet<u64>,
@@ -600,7 +633,7 @@ impl<'a> Sim<'a> {
 		let mut prng = Prng::new(spec.seed ^ 0x51D);
 		let nrd_key = prng.fork(0x4e52_44);
 		let (gen, gcoin) = w.genesis();
-		let chain = Arc::new(open_chain(dir, &gen)?);
+		let chain = ChainCell(Some(Arc::new(open_chain(dir, &gen)?)));
 		let ledger = RefLedger::new(&gen);
 		let mut cb = HashMap::new();
 		cb.insert(gen.hash(), gcoin);
@@ -613,6 +646,9 @@ impl<'a> Sim<'a> {
 			nrd_excess: None,
 			ledger,
 			chain,
+			dir: dir.to_string(),
+			gen: gen.clone(),
+			restart_before_decisions: false,
 			key: 1,
 			cb,
 			reserved: HashSet::new(),
@@ -625,6 +661,37 @@ impl<'a> Sim<'a> {
 			violations_here: 0,
 			max_td: 0,
 		})
+	}
+
+	/// Close the node and open it again on the same directory.
+	fn restart(&mut self) {
+		let head_before = self.chain.head().map(|t| t.last_block_h).ok();
+		self.chain.0 = None;
+		match open_chain(&self.dir, &self.gen) {
+			Ok(c) => self.chain.0 = Some(Arc::new(c)),
+			Err(e) => {
+				// reopen once more so that the rest of the scenario has a node, then give up on the scenario
+				self.run.violation(
+					"rule=restart;event=node_does_not_reopen",
+					&format!("Chain::init failed after a clean close: {}", e),
+					json!({"scenario": self.tag, "script": self.script}),
+				);
+				self.violations_here += 1;
+				self.chain.0 = open_chain(&self.dir, &self.gen).ok().map(Arc::new);
+				self.abort("node did not reopen");
+				return;
+			}
+		}
+		self.run.count("restarts", 1);
+		self.script.push("RESTART (node closed and reopened)".to_string());
+		if self.chain.head().map(|t| t.last_block_h).ok() != head_before {
+			self.run.violation(
+				"rule=restart;event=head_changed_by_a_clean_restart",
+				"the head after reopening differs from the head before closing",
+				json!({"scenario": self.tag, "script": self.script}),
+			);
+			self.violations_here += 1;
+		}
 	}
 
 	fn abort(&mut self, why: &str) {
@@ -1102,6 +1169,15 @@ impl<'a> Sim<'a> {
 				Some(b) => b,
 				None => return,
 			};
+			let class = if self.restart_before_decisions && ev.dec.is_some() {
+				self.restart();
+				if !self.ok() {
+					return;
+				}
+				"after_restart"
+			} else {
+				class
+			};
 			let lab = match ev.dec {
 				Some((rule, off)) => Label { rule, class, off },
 				None => Label { rule: "setup", class, off: NA },
@@ -1269,7 +1345,7 @@ impl<'a> Sim<'a> {
 				return;
 			}
 		}
-		let adapter = Arc::new(PoolChainAdapter { chain: self.chain.clone() });
+		let adapter = Arc::new(PoolChainAdapter { chain: self.chain.arc() });
 		let mut pool = TransactionPool::new(
 			PoolConfig {
 				accept_fee_base: global::get_accept_fee_base(),
@@ -1410,7 +1486,17 @@ impl<'a> Sim<'a> {
 			self.run.count("pool_checks_skipped_header_chain_diverged", 1);
 			return;
 		}
-		let class = if self.reorged { "pool_after_reorg" } else { "pool" };
+		let class = if self.restart_before_decisions {
+			self.restart();
+			if !self.ok() {
+				return;
+			}
+			"pool_after_restart"
+		} else if self.reorged {
+			"pool_after_reorg"
+		} else {
+			"pool"
+		};
 		self.pool_maturity(class);
 		self.pool_lock(class);
 		self.pool_nrd(class);
@@ -1419,6 +1505,7 @@ impl<'a> Sim<'a> {
 	// ------------------------------------------------------------ scenarios
 
 	fn execute(&mut self, spec: &Spec) {
+		self.restart_before_decisions = spec.restart && spec.kind == Kind::Single;
 		let mut sp = Prng::new(spec.seed ^ 0xE8EC);
 		let gen = self.ledger.genesis_hash();
 		let fat_a = if spec.fat == Fat::A { 4 } else { 0 };
@@ -1804,18 +1891,18 @@ fn main() {
 				"maturity",
 				vec![
 					"single", "fork_trunk", "fork_branch", "reorg_trigger", "reapplied", "rewound",
-					"pool", "pool_after_reorg", "pool_header_fork",
+					"pool", "pool_after_reorg", "pool_header_fork", "after_restart", "pool_after_restart",
 				],
 			),
 			(
 				"lock",
-				vec!["single", "fork", "reorg_trigger", "reapplied", "rewound", "pool", "pool_after_reorg", "pool_header_fork"],
+				vec!["single", "fork", "reorg_trigger", "reapplied", "rewound", "pool", "pool_after_reorg", "pool_header_fork", "after_restart", "pool_after_restart"],
 			),
 			(
 				"nrd",
 				vec![
 					"single", "fork_trunk", "fork_branch", "cross_fork", "reorg_trigger", "reapplied",
-					"rewound", "pool", "pool_after_reorg", "pool_header_fork",
+					"rewound", "pool", "pool_after_reorg", "pool_header_fork", "after_restart",
 				],
 			),
 			("nrd_hf3", vec!["single", "fork"]),
